@@ -116,7 +116,7 @@ func c01Reuse(c *vh.Ctx) {
 		`function f(x) { if (x == "skip") next; return x } /a/,/b/ { print f($1) }`,
 	}
 	inputs := [][2]string{
-		{"q\na\nm\n", "n\nb\nz\n"},       // first run ends inside the range
+		{"q\na\nm\n", "n\nb\nz\n"}, // first run ends inside the range
 		{"s 1\nmid\n", "other\ne\nlast\n"},
 		{"a\nx\n", "p\nq\n"},
 		{"a\nskip\nc\n", "d\nb\ne\n"},
@@ -144,8 +144,8 @@ func c01Reuse(c *vh.Ctx) {
 				}()
 				one, _ := interp.New(prog)
 				got := run(one, in[0])
-			one.ResetVars() // Execute keeps variables by design; the VM's own state must need no reset
-			got += " / " + run(one, in[1])
+				one.ResetVars() // Execute keeps variables by design; the VM's own state must need no reset
+				got += " / " + run(one, in[1])
 				f1, _ := interp.New(prog)
 				f2, _ := interp.New(prog)
 				want := run(f1, in[0]) + " / " + run(f2, in[1])
@@ -154,6 +154,83 @@ func c01Reuse(c *vh.Ctx) {
 						Case: map[string]string{"program": src, "input1": in[0], "input2": in[1]}, Got: got, Want: want})
 				}
 			}()
+		}
+	}
+}
+
+// c01ShortcutHistories: the constant-operand shortcuts of the compiler (`@"name"`, `$1`, `a["k"]`) beside their general
+// spellings, each executed over the same history of configurations on ONE reused Interpreter: run by run the two spellings
+// must agree, and both must agree with fresh interpreters — whatever a shortcut remembers about a constant belongs to the
+// record source it was computed for (seeded C01-s2: field numbers of `@"name"` cached per constant and not dropped between
+// Execute calls, so a later headerless run answered from the previous run's header).
+func c01ShortcutHistories(c *vh.Ctx) {
+	type step struct {
+		csv, header bool
+		in          string
+	}
+	hists := [][]step{
+		{{true, true, "name,age\ncarol,3\ndave,4\n"}, {true, false, "x,y\nz,w\n"}},
+		{{true, true, "name,age\ncarol,3\n"}, {true, true, "age,name\n5,erin\n"}, {true, false, "p,q\n"}},
+		{{false, false, "u v\n"}, {true, true, "age,name\n5,erin\n"}, {false, false, "name age\n"}, {true, true, "name\nzed\n"}},
+		{{true, true, "id,name\n1,a\n"}, {true, true, "name\nb\n"}, {true, true, "k,j\n1,2\n"}},
+	}
+	pairs := [][2]string{
+		{`{ print NR, @"name" }`, `{ n = "na" "me"; print NR, @n }`},
+		{`{ print @"name" @"age" }`, `{ n = "name"; m = "age"; print @n @m }`},
+		{`{ x = @"name"; $0 = "re set"; print x, @"name" }`, `{ n = "name"; x = @n; $0 = "re set"; print x, @n }`},
+		{`{ print $1, $2 }`, `{ i = 1; j = 2; print $i, $j }`},
+		{`{ a["k"] = $1; print a["k"], length(a) }`, `{ k = "k"; a[k] = $1; print a[k], length(a) }`},
+	}
+	run := func(p *interp.Interpreter, st step) string {
+		var out bytes.Buffer
+		cfg := &interp.Config{Stdin: strings.NewReader(st.in), Output: &out, Error: &out, Environ: []string{}}
+		if st.csv {
+			cfg.InputMode = interp.CSVMode
+			cfg.CSVInput = interp.CSVInputConfig{Header: st.header}
+		}
+		status, err := p.Execute(cfg)
+		return fmt.Sprintf("%q %d %v", out.String(), status, err)
+	}
+	for _, pr := range pairs {
+		pa, ea := c01Parse(pr[0])
+		pb, eb := c01Parse(pr[1])
+		if ea != nil || eb != nil {
+			c.Note("shortcut-history program does not parse: " + pr[0] + " | " + pr[1])
+			continue
+		}
+		for hi, h := range hists {
+			for _, reset := range []bool{false, true} {
+				c.OracleCase()
+				c.Eval(fmt.Sprint("shortcut-history\x00", pr[0], hi, reset), true)
+				c.Hit("oracle:shortcut-history")
+				func() {
+					cs := map[string]interface{}{"constant_spelling": pr[0], "general_spelling": pr[1], "history": fmt.Sprintf("%+v", h), "reset_vars_between": reset}
+					defer func() {
+						if r := recover(); r != nil {
+							c.Fail(vh.Failure{Kind: "oracle", What: "reused interpreter panicked", Case: cs, Got: fmt.Sprint(r)})
+						}
+					}()
+					ia, _ := interp.New(pa)
+					ib, _ := interp.New(pb)
+					for k, st := range h {
+						if k > 0 && reset {
+							ia.ResetVars()
+							ib.ResetVars()
+						}
+						ga, gb := run(ia, st), run(ib, st)
+						fa, _ := interp.New(pa)
+						wa := run(fa, st)
+						if ga != gb {
+							c.Fail(vh.Failure{Kind: "oracle", What: fmt.Sprintf("Execute #%d: the constant spelling and the general spelling of the same program behave differently on a reused Interpreter", k+1), Case: cs, Got: ga, Want: gb})
+							return
+						}
+						if (reset || k == 0) && ga != wa {
+							c.Fail(vh.Failure{Kind: "oracle", What: fmt.Sprintf("Execute #%d on a reused Interpreter differs from the same call on a fresh one", k+1), Case: cs, Got: ga, Want: wa})
+							return
+						}
+					}
+				}()
+			}
 		}
 	}
 }
